@@ -290,7 +290,7 @@ def _case(draw):
     if draw(st.integers(0, 2)) == 0:
         box = [-1.0, -1.0, 40.0, 20.0]
     first = draw(st.sampled_from(['from_pandas', 'from_delayed', 'from_delayed']))
-    chain = [first] + draw(st.lists(st.sampled_from(['filter', 'set_geometry', 'pack', 'parquet', 'parquet-geom', 'parquet-bounds', 'parquet-rewrite', 'parquet-list', 'parquet-geom-list']), max_size=2, unique=True))
+    chain = [first] + draw(st.lists(st.sampled_from(['filter', 'set_geometry', 'pack', 'parquet', 'parquet-geom', 'parquet-bounds', 'parquet-bounds', 'parquet-bounds-list', 'parquet-rewrite', 'parquet-list', 'parquet-geom-list']), max_size=2, unique=True))
     return {'points': pts, 'shapes': shapes, 'kind2': kind2, 'subtype2': draw(st.sampled_from(['float64', 'float32', 'int32'])),
             'index': draw(st.sampled_from(['default', 'labels', 'nonunique'])),
             'col_order': draw(st.sampled_from([['pts', 'shp'], ['shp', 'pts']])), 'active': draw(st.sampled_from(['pts', 'pts', 'shp'])),
